@@ -198,6 +198,18 @@ pub fn factor(n: Uint, alg: Algo, prefs: &Preferences) -> Result<Vec<Uint>, Fact
     if nred != n && prefs.verbose(Verbosity::Info) {
         eprintln!("Factoring {nred}");
     }
+    // Modular arithmetic is only valid up to 500 bits
+    // (inversion needs spare bits, additions must not carry out of 512 bits).
+    const MAXBITS: u32 = 500;
+    if nred.bits() > MAXBITS {
+        if prefs.verbose(Verbosity::Info) {
+            eprintln!(
+                "Number size ({} bits) exceeds {MAXBITS} bits limit",
+                nred.bits()
+            );
+        }
+        return Err(FactoringFailure);
+    }
     // Create thread pool
     let tpool: Option<rayon::ThreadPool> = match prefs.threads {
         None | Some(1) => None,
